@@ -1,9 +1,19 @@
 // C15 — stateless operations are safe to run concurrently and history-free.
-// Engine E2: (1) every pair / selected triple of operations on managed threads, all interleavings at
-// the instrumented conflicting accesses and lock operations with <= 2 preemptions; (2) every
-// sequential history of length <= 2 (quick) / <= 3 (thorough), each in a fresh process;
-// (3) the same scenario bodies free-running under the race detector in a separate -race build.
-// Oracle: every call's result equals the result of the same call run alone in a fresh process.
+// Engine E2:
+//
+//	(1) "pairs"/"triples": every pair / selected triples of operations on managed threads in ONE process
+//	    (steady state: whatever lazy initialisation exists has happened), all interleavings at the
+//	    instrumented conflicting accesses and lock operations with <= 2 preemptions;
+//	(2) "fresh-pairs": every pair again, but EVERY execution runs in a FRESH process whose first library
+//	    calls are the two operations (first-use / lazy-initialisation interleavings; its bound-0 pass is
+//	    also every 2-operation history in a fresh process);
+//	(3) "histories-3" (thorough): every sequential history of length 3, each in a fresh process;
+//	(4) "race-pass": every pair free-running under the race detector, each pair in its own fresh process
+//	    of a separate -race build.
+//
+// Oracle: every call's result equals the result of the same call run alone in a fresh process;
+// shared input buffers unchanged; no DATA RACE. Fixtures are computed by a separate process and loaded
+// from a file, so that a scenario process makes no library call before its scenario starts.
 package main
 
 import (
@@ -39,20 +49,58 @@ type op struct {
 
 var ops []op
 
-// fixtures: built once per process, deliberately SHARED between threads (same backing arrays).
+// Fixtures: computed once by a separate process, deliberately SHARED between threads (same backing arrays).
+type Fixtures struct {
+	XMsg, XSig, XBad, DMsg, DSM []byte
+	XPK                         [67]byte
+	DPK                         [dilithium.CryptoPublicKeyBytes]byte
+	DSig                        [dilithium.CryptoBytes]byte
+	SeedA, SeedD                [48]byte
+	ESeedA                      [51]byte
+	MnemA, MnemE                string
+	LegacyA                     [39]byte
+	AddrX, AddrD                [20]byte
+	Solo                        map[string]string
+}
+
+var fx Fixtures
+
+func computeFixtures() {
+	vseed := int64(0)
+	k := xmss.NewXMSSFromSeed(seeds.Seed48(3, vseed), 4, xmss.SHAKE_128, common.SHA256_2X)
+	k.SetIndex(5)
+	fx.XMsg = []byte("c15 xmss message")
+	fx.XSig, _ = k.Sign(fx.XMsg)
+	fx.XBad = append([]byte(nil), fx.XSig...)
+	fx.XBad[100] ^= 4
+	fx.XPK = k.GetPK()
+	fx.AddrX = k.GetAddress()
+	fx.LegacyA = k.GetLegacyAddress()
+	fx.SeedD = seeds.Seed48(4, vseed)
+	d, _ := dilithium.NewDilithiumFromSeed(fx.SeedD)
+	fx.DPK = d.GetPK()
+	fx.DMsg = []byte("c15 dilithium message")
+	fx.DSig, _ = d.Sign(fx.DMsg)
+	fx.DSM, _ = d.Seal(fx.DMsg)
+	fx.AddrD = d.GetAddress()
+	fx.SeedA = seeds.Seed48(5, vseed)
+	copy(fx.ESeedA[:], []byte{1, 2, 0})
+	copy(fx.ESeedA[3:], fx.SeedA[:])
+	fx.MnemA = misc.SeedBinToMnemonic(fx.SeedA)
+	fx.MnemE = misc.ExtendedSeedBinToMnemonic(fx.ESeedA)
+}
+
 var (
-	xMsg, xSig, xBad []byte
-	xPK              [67]byte
-	dKey             *dilithium.Dilithium
-	dPK              [dilithium.CryptoPublicKeyBytes]byte
-	dMsg, dSM        []byte
-	dSig             [dilithium.CryptoBytes]byte
-	seedA            [48]byte
-	eseedA           [51]byte
-	mnemA, mnemE     string
-	legacyA          [39]byte
-	addrX, addrD     [20]byte
+	dKeyOnce sync.Once
+	dKeyObj  *dilithium.Dilithium
 )
+
+// dKey is the SHARED Dilithium key object; it has to be built with a library call, which happens
+// before the scenario starts only for scenarios that use it (see prepare).
+func dKey() *dilithium.Dilithium {
+	dKeyOnce.Do(func() { dKeyObj, _ = dilithium.NewDilithiumFromSeed(fx.SeedD) })
+	return dKeyObj
+}
 
 func digest(parts ...any) string {
 	h := sha256.New()
@@ -71,41 +119,36 @@ func call(f func() string) string {
 	return r
 }
 
-func setup() {
+func buildOps() {
 	if ops != nil {
 		return
 	}
-	vseed := int64(0)
-	k := xmss.NewXMSSFromSeed(seeds.Seed48(3, vseed), 4, xmss.SHAKE_128, common.SHA256_2X)
-	k.SetIndex(5)
-	xMsg = []byte("c15 xmss message")
-	xSig, _ = k.Sign(xMsg)
-	xBad = append([]byte(nil), xSig...)
-	xBad[100] ^= 4
-	xPK = k.GetPK()
-	addrX = k.GetAddress()
-	legacyA = k.GetLegacyAddress()
-	dKey, _ = dilithium.NewDilithiumFromSeed(seeds.Seed48(4, vseed))
-	dPK = dKey.GetPK()
-	dMsg = []byte("c15 dilithium message")
-	dSig, _ = dKey.Sign(dMsg)
-	dSM, _ = dKey.Seal(dMsg)
-	addrD = dKey.GetAddress()
-	seedA = seeds.Seed48(5, vseed)
-	copy(eseedA[:], []byte{1, 2, 0})
-	copy(eseedA[3:], seedA[:])
-	mnemA = misc.SeedBinToMnemonic(seedA)
-	mnemE = misc.ExtendedSeedBinToMnemonic(eseedA)
+	xMsg, xSig, xBad, xPK := fx.XMsg, fx.XSig, fx.XBad, fx.XPK
+	dMsg, dSM, dPK, dSig := fx.DMsg, fx.DSM, fx.DPK, fx.DSig
+	seedA, eseedA, mnemA, mnemE := fx.SeedA, fx.ESeedA, fx.MnemA, fx.MnemE
+	addrX, addrD, legacyA := fx.AddrX, fx.AddrD, fx.LegacyA
 	hexSig, hexPK := "0x"+hex.EncodeToString(dSig[:]), hex.EncodeToString(dPK[:])
 	hexXSig, hexXPK := hex.EncodeToString(xSig), "0x"+hex.EncodeToString(xPK[:])
+	dPK2 := dPK
+	dPK2[40] ^= 0x10 // same rho, different t1
+	xPK2 := xPK
+	xPK2[50] ^= 1 // same descriptor and root, different public seed
+	xPK3 := xPK
+	xPK3[10] ^= 1 // same descriptor, different root
+	dMsg2 := append([]byte(nil), dMsg...)
+	dMsg2[0] ^= 1
+	addrD2 := addrD
+	addrD2[19] ^= 1
+	blobW4 := make([]byte, 4+32+133*32+4*32)
+	blobW256 := make([]byte, 4+32+34*32+4*32)
 	ops = []op{
 		{"xmss.Verify(valid)", func() string { return fmt.Sprint(xmss.Verify(xMsg, xSig, xPK)) }},
 		{"xmss.Verify(tampered)", func() string { return fmt.Sprint(xmss.Verify(xMsg, xBad, xPK)) }},
 		{"xmss.VerifyWithCustomWOTSParamW(16)", func() string { return fmt.Sprint(xmss.VerifyWithCustomWOTSParamW(xMsg, xSig, xPK, 16)) }},
 		{"dilithium.Verify", func() string { return fmt.Sprint(dilithium.Verify(dMsg, dSig, &dPK)) }},
 		{"dilithium.Open", func() string { return digest(dilithium.Open(dSM, &dPK)) }},
-		{"sharedKey.Sign", func() string { s, err := dKey.Sign(dMsg); return digest(s, err) }},
-		{"sharedKey.Seal", func() string { s, err := dKey.Seal([]byte("another message")); return digest(s, err) }},
+		{"sharedKey.Sign", func() string { s, err := dKey().Sign(dMsg); return digest(s, err) }},
+		{"sharedKey.Seal", func() string { s, err := dKey().Seal([]byte("another message")); return digest(s, err) }},
 		{"GetXMSSAddressFromPK", func() string { return digest(xmss.GetXMSSAddressFromPK(xPK)) }},
 		{"GetLegacyXMSSAddressFromPK", func() string { return digest(xmss.GetLegacyXMSSAddressFromPK(xPK)) }},
 		{"GetDilithiumAddressFromPK", func() string { return digest(dilithium.GetDilithiumAddressFromPK(dPK)) }},
@@ -140,41 +183,43 @@ func setup() {
 		}},
 		{"dilithiumjs.DilithiumVerify", func() string { return fmt.Sprint(dilithiumjs.DilithiumVerify(dMsg, hexSig, hexPK)) }},
 		{"xmssjs.XMSSVerify", func() string { return fmt.Sprint(xmssjs.XMSSVerify(string(xMsg), hexXSig, hexXPK)) }},
-	}
-	// related-input variants: same call with an input that shares a prefix / a component with the fixture
-	// (a cache keyed on part of its input answers these from the wrong entry)
-	dPK2 := dPK
-	dPK2[40] ^= 0x10 // same rho, different t1
-	xPK2 := xPK
-	xPK2[50] ^= 1 // same descriptor and root, different public seed
-	xPK3 := xPK
-	xPK3[10] ^= 1 // same descriptor, different root
-	dMsg2 := append([]byte(nil), dMsg...)
-	dMsg2[0] ^= 1
-	addrD2 := addrD
-	addrD2[19] ^= 1
-	ops = append(ops,
-		op{"dilithium.Verify(pk: same rho, t1 changed)", func() string { return fmt.Sprint(dilithium.Verify(dMsg, dSig, &dPK2)) }},
-		op{"dilithium.Verify(other message)", func() string { return fmt.Sprint(dilithium.Verify(dMsg2, dSig, &dPK)) }},
-		op{"dilithium.Open(pk: same rho, t1 changed)", func() string { return digest(dilithium.Open(dSM, &dPK2)) }},
-		op{"xmss.Verify(pk: seed changed)", func() string { return fmt.Sprint(xmss.Verify(xMsg, xSig, xPK2)) }},
-		op{"xmss.Verify(other message)", func() string { return fmt.Sprint(xmss.Verify(dMsg, xSig, xPK)) }},
-		op{"GetDilithiumAddressFromPK(same rho, t1 changed)", func() string { return digest(dilithium.GetDilithiumAddressFromPK(dPK2)) }},
-		op{"GetXMSSAddressFromPK(root changed)", func() string { return digest(xmss.GetXMSSAddressFromPK(xPK3), xmss.GetLegacyXMSSAddressFromPK(xPK3)) }},
-		op{"dilithiumjs.DilithiumVerify(other message, same signature)", func() string { return fmt.Sprint(dilithiumjs.DilithiumVerify(dMsg2, hexSig, hexPK)) }},
-		op{"dilithiumjs.GetDilithiumAddressFromPK/IsValid", func() string {
+		// related-input variants: same call with an input that shares a prefix / a component with the fixture
+		// (a cache keyed on part of its input answers these from the wrong entry)
+		{"dilithium.Verify(pk: same rho, t1 changed)", func() string { return fmt.Sprint(dilithium.Verify(dMsg, dSig, &dPK2)) }},
+		{"dilithium.Verify(other message)", func() string { return fmt.Sprint(dilithium.Verify(dMsg2, dSig, &dPK)) }},
+		{"dilithium.Open(pk: same rho, t1 changed)", func() string { return digest(dilithium.Open(dSM, &dPK2)) }},
+		{"xmss.Verify(pk: seed changed)", func() string { return fmt.Sprint(xmss.Verify(xMsg, xSig, xPK2)) }},
+		{"xmss.Verify(other message)", func() string { return fmt.Sprint(xmss.Verify(dMsg, xSig, xPK)) }},
+		{"GetDilithiumAddressFromPK(same rho, t1 changed)", func() string { return digest(dilithium.GetDilithiumAddressFromPK(dPK2)) }},
+		{"GetXMSSAddressFromPK(root changed)", func() string {
+			return digest(xmss.GetXMSSAddressFromPK(xPK3), xmss.GetLegacyXMSSAddressFromPK(xPK3))
+		}},
+		{"dilithiumjs.DilithiumVerify(other message, same signature)", func() string { return fmt.Sprint(dilithiumjs.DilithiumVerify(dMsg2, hexSig, hexPK)) }},
+		{"dilithiumjs.GetDilithiumAddressFromPK/IsValid", func() string {
 			return digest(dilithiumjs.GetDilithiumAddressFromPK(hexPK), dilithiumjs.IsValidDilithiumAddress(hex.EncodeToString(addrD2[:])), xmssjs.IsValidXMSSAddress(hex.EncodeToString(addrX[:])), xmssjs.GetXMSSAddressFromPK(hexXPK))
 		}},
-	)
+		// same entry point with other parameters at the same height (a parameter cache keyed on part of the parameters)
+		{"xmss.VerifyWithCustomWOTSParamW(4, sized blob)", func() string { return fmt.Sprint(xmss.VerifyWithCustomWOTSParamW(xMsg, blobW4, xPK, 4)) }},
+		{"xmss.VerifyWithCustomWOTSParamW(256, sized blob)", func() string { return fmt.Sprint(xmss.VerifyWithCustomWOTSParamW(xMsg, blobW256, xPK, 256)) }},
+	}
 	for i := range ops {
 		f := ops[i].f
 		ops[i].f = func() string { return call(f) }
 	}
 }
 
+// prepare builds the shared key object if (and only if) the scenario uses it.
+func prepare(idx []int) {
+	for _, i := range idx {
+		if strings.HasPrefix(ops[i].name, "sharedKey.") {
+			dKey()
+		}
+	}
+}
+
 // fixtureDigest detects modification of the shared input buffers.
 func fixtureDigest() string {
-	return digest(xMsg, xSig, xBad, xPK, dPK, dMsg, dSM, dSig, seedA, eseedA, mnemA, mnemE, legacyA, addrX, addrD, dKey.GetPK(), dKey.GetSK())
+	return digest(fx.XMsg, fx.XSig, fx.XBad, fx.XPK, fx.DPK, fx.DMsg, fx.DSM, fx.DSig, fx.SeedA, fx.ESeedA, fx.MnemA, fx.MnemE, fx.LegacyA, fx.AddrX, fx.AddrD)
 }
 
 var canaryOps = []op{
@@ -183,46 +228,134 @@ var canaryOps = []op{
 	{"canary.GoodLookup", func() string { return fmt.Sprint(verifcanary.GoodLookup(3)) }},
 }
 
-// solo results: each op alone in a fresh process.
-var solo map[string]string
+func self() string { s, _ := os.Executable(); return s }
 
-func loadSolo() {
-	if solo != nil {
+// subprocess protocol -------------------------------------------------------------------------
+
+type execReq struct {
+	Ops      []int    `json:"ops"`
+	Prefix   []int    `json:"prefix"`
+	Conflict []string `json:"conflict"`
+	Seq      bool     `json:"seq"` // run the ops sequentially on one thread (histories / solo)
+}
+
+type execResp struct {
+	Choices    []int              `json:"choices"`
+	Pts        []e2.Pt            `json:"pts"`
+	Results    []string           `json:"results"`
+	Deadlock   bool               `json:"deadlock"`
+	Horizon    bool               `json:"horizon"`
+	Acc        map[string][]uint8 `json:"acc"`
+	PointsSeen int64              `json:"points_seen"`
+	Fixtures   string             `json:"fixtures"`
+}
+
+func childExec(reqJSON string) {
+	var rq execReq
+	if err := json.Unmarshal([]byte(reqJSON), &rq); err != nil {
+		fmt.Fprintln(os.Stderr, "bad exec request:", err)
+		os.Exit(2)
+	}
+	loadFixtures()
+	buildOps()
+	var resp execResp
+	if rq.Seq {
+		for _, i := range rq.Ops {
+			if strings.HasPrefix(ops[i].name, "sharedKey.") {
+				dKey()
+			}
+			resp.Results = append(resp.Results, ops[i].f())
+		}
+	} else {
+		prepare(rq.Ops)
+		sc := &e2.Scenario{Reset: func() {}}
+		for _, i := range rq.Ops {
+			sc.Bodies = append(sc.Bodies, ops[i].f)
+		}
+		x := e2.InProcess(sc)(rq.Prefix, rq.Conflict)
+		resp = execResp{Choices: x.Choices, Pts: x.Pts, Results: x.Results, Deadlock: x.Deadlock, Horizon: x.Horizon, Acc: x.Acc, PointsSeen: x.PointsSeen}
+	}
+	resp.Fixtures = fixtureDigest()
+	b, _ := json.Marshal(&resp)
+	fmt.Println(string(b))
+}
+
+func spawn(rq execReq) (*execResp, string) {
+	b, _ := json.Marshal(&rq)
+	cmd := exec.Command(self())
+	cmd.Env = append(os.Environ(), "VERIF_C15_EXEC="+string(b))
+	var eb bytes.Buffer
+	cmd.Stderr = &eb
+	out, err := cmd.Output()
+	if err != nil {
+		return nil, fmt.Sprintf("%v: %s", err, tail(eb.String(), 1500))
+	}
+	var r execResp
+	if err := json.Unmarshal(bytes.TrimSpace(out), &r); err != nil {
+		return nil, "unparsable child output: " + tail(string(out), 300)
+	}
+	return &r, ""
+}
+
+// freshBackend: every execution in a fresh process.
+func freshBackend(idx []int, fixtureBad *bool) e2.Backend {
+	return func(prefix []int, conflict []string) *e2.Exec {
+		r, errs := spawn(execReq{Ops: idx, Prefix: prefix, Conflict: conflict})
+		if r == nil {
+			return &e2.Exec{Err: errs}
+		}
+		if r.Fixtures != fx.Solo["fixtures"] {
+			*fixtureBad = true
+		}
+		return &e2.Exec{Choices: r.Choices, Pts: r.Pts, Results: r.Results, Deadlock: r.Deadlock, Horizon: r.Horizon, Acc: r.Acc, PointsSeen: r.PointsSeen}
+	}
+}
+
+func fixturesPath() string { return os.Getenv("VERIF_C15_FIXTURES") }
+
+func loadFixtures() {
+	if fx.Solo != nil {
 		return
 	}
-	solo = map[string]string{}
-	if p := os.Getenv("VERIF_SOLO_FILE"); p != "" {
-		if b, err := os.ReadFile(p); err == nil && json.Unmarshal(b, &solo) == nil && len(solo) > 0 {
-			return
-		}
+	p := fixturesPath()
+	b, err := os.ReadFile(p)
+	if err != nil || json.Unmarshal(b, &fx) != nil || fx.Solo == nil {
+		fmt.Fprintln(os.Stderr, "fixtures file missing or unreadable:", p, err)
+		os.Exit(2)
 	}
-	self, _ := os.Executable()
-	setup()
+}
+
+// makeFixtures (master only): one process computes the fixture bytes, then every operation runs alone in
+// its own fresh process to give the solo results.
+func makeFixtures(path string) {
+	computeFixtures()
+	fx.Solo = map[string]string{"fixtures": fixtureDigest()}
+	b, _ := json.Marshal(&fx)
+	os.WriteFile(path, b, 0o644)
+	os.Setenv("VERIF_C15_FIXTURES", path)
+	buildOps()
 	var mu sync.Mutex
 	var wg sync.WaitGroup
-	sem := make(chan struct{}, 8)
+	sem := make(chan struct{}, 12)
 	for i := range ops {
 		wg.Add(1)
 		go func(i int) {
 			defer wg.Done()
 			sem <- struct{}{}
 			defer func() { <-sem }()
-			cmd := exec.Command(self, "-replay", "", "-only", "")
-			cmd.Env = append(os.Environ(), fmt.Sprintf("VERIF_C15_SEQ=%d", i))
-			out, err := cmd.Output()
-			if err != nil {
-				fmt.Fprintln(os.Stderr, "solo run failed:", ops[i].name, err)
+			r, errs := spawn(execReq{Ops: []int{i}, Seq: true})
+			if r == nil || len(r.Results) != 1 {
+				fmt.Fprintln(os.Stderr, "solo run failed:", ops[i].name, errs)
 				os.Exit(2)
 			}
-			var r []string
-			json.Unmarshal(bytes.TrimSpace(out), &r)
 			mu.Lock()
-			solo[ops[i].name] = r[0]
+			fx.Solo[ops[i].name] = r.Results[0]
 			mu.Unlock()
 		}(i)
 	}
 	wg.Wait()
-	solo["fixtures"] = fixtureDigest()
+	b, _ = json.Marshal(&fx)
+	os.WriteFile(path, b, 0o644)
 }
 
 func pairOf(k int, n int) (int, int) { // unordered pairs incl. (i,i)
@@ -237,23 +370,20 @@ func pairOf(k int, n int) (int, int) { // unordered pairs incl. (i,i)
 	panic("pair index")
 }
 
-func scenarioOf(idx []int) (*e2.Scenario, []string) {
-	sc := &e2.Scenario{Reset: func() {}}
-	var exp []string
-	var names []string
+func namesOf(idx []int) (string, []string) {
+	var exp, names []string
 	for _, i := range idx {
-		sc.Bodies = append(sc.Bodies, ops[i].f)
-		exp = append(exp, solo[ops[i].name])
+		exp = append(exp, fx.Solo[ops[i].name])
 		names = append(names, ops[i].name)
 	}
-	sc.Name = strings.Join(names, " || ")
-	return sc, exp
+	return strings.Join(names, " || "), exp
 }
 
 var cappedSoFar int
 
-func exploreCase(c *drv.Ctx, i int64, sc *e2.Scenario, exp []string, bound int, mustFail bool, maxExec int64) *e2.Stats {
+func exploreCase(c *drv.Ctx, i int64, kind string, idx []int, be e2.Backend, bound int) *e2.Stats {
 	e2.Progress = c.Tick
+	name, exp := namesOf(idx)
 	budget := 15 * time.Second
 	if c.Tier == "thorough" {
 		budget = 120 * time.Second
@@ -261,7 +391,7 @@ func exploreCase(c *drv.Ctx, i int64, sc *e2.Scenario, exp []string, bound int, 
 	if cappedSoFar >= 3 {
 		budget = 2 * time.Second // this tree makes every scenario expensive: keep the run bounded
 	}
-	st, v := e2.Explore(sc, bound, exp, maxExec, budget)
+	st, v := e2.Explore(name, be, bound, exp, 20000, budget)
 	if st.Capped {
 		cappedSoFar++
 		c.Cap(fmt.Sprintf("scenario time budget reached (bound completed: %d)", st.BoundCompleted))
@@ -281,29 +411,26 @@ func exploreCase(c *drv.Ctx, i int64, sc *e2.Scenario, exp []string, bound int, 
 	if st.Preemptive > 0 {
 		c.Nontrivial(1)
 	}
-	if v != nil && !mustFail {
+	if v != nil {
 		// determinism: replay the schedule twice, identical observations required
-		r1 := e2.Replay(sc, v.Choices, st.ConflictVars)
-		r2 := e2.Replay(sc, v.Choices, st.ConflictVars)
+		r1 := e2.Replay(be, v.Choices, v.Conflict)
+		r2 := e2.Replay(be, v.Choices, v.Conflict)
 		if fmt.Sprint(r1.Results) != fmt.Sprint(v.Results) || fmt.Sprint(r2.Results) != fmt.Sprint(v.Results) {
-			c.Fail(i, "nondeterministic-replay(infrastructure)", map[string]any{"scenario": sc.Name})
+			c.Fail(i, kind+":nondeterministic-replay(infrastructure):"+name, map[string]any{"scenario": name, "first": v.Results, "replay1": r1.Results, "replay2": r2.Results})
 			return st
 		}
-		c.Fail(i, "interleaving:"+sc.Name, map[string]any{"scenario": sc.Name, "why": v.Why, "schedule_choices": v.Choices, "observed": v.Results, "expected_solo": v.Expected,
-			"conflict_vars": st.ConflictVars, "preemption_bound": bound})
-	}
-	if fixtureDigest() != solo["fixtures"] {
-		c.Fail(i, "shared-input-buffers-modified:"+sc.Name, map[string]any{"scenario": sc.Name})
+		c.Fail(i, kind+":"+name, map[string]any{"scenario": name, "why": v.Why, "schedule_choices": v.Choices, "observed": v.Results, "expected_solo": v.Expected,
+			"conflict_vars": v.Conflict, "preemption_bound": bound, "fresh_process_per_execution": kind == "first-use"})
 	}
 	return st
 }
 
 func raceRun(sel string) {
-	// free-running pass in the -race build: VERIF_C15_RACE="pairs:<shard>/<n>:<reps>" | "canary:<k>"
-	setup()
+	// free-running pass in the -race build: "pair:<a>,<b>:<reps>" | "canary:<k>"
+	loadFixtures()
+	buildOps()
 	runtime.GOMAXPROCS(8)
-	runSet := func(fs []func() string, reps int) []string {
-		res := make([]string, len(fs))
+	runSet := func(fs []func() string, reps int) {
 		for r := 0; r < reps; r++ {
 			var wg sync.WaitGroup
 			start := make(chan struct{})
@@ -312,13 +439,12 @@ func raceRun(sel string) {
 				go func(t int) {
 					defer wg.Done()
 					<-start
-					res[t] = fs[t]()
+					fs[t]()
 				}(t)
 			}
 			close(start)
 			wg.Wait()
 		}
-		return res
 	}
 	parts := strings.Split(sel, ":")
 	switch parts[0] {
@@ -326,79 +452,63 @@ func raceRun(sel string) {
 		var k int
 		fmt.Sscan(parts[1], &k)
 		runSet([]func() string{canaryOps[k].f, canaryOps[k].f, canaryOps[k].f}, 20)
-	case "pairs":
-		var shard, n, reps int
-		fmt.Sscanf(parts[1], "%d/%d", &shard, &n)
+	case "pair":
+		var a, b, reps int
+		fmt.Sscanf(parts[1], "%d,%d", &a, &b)
 		fmt.Sscan(parts[2], &reps)
-		np := len(ops) * (len(ops) + 1) / 2
-		bad := 0
-		for k := 0; k < np; k++ {
-			if k%n != shard {
-				continue
-			}
-			a, b := pairOf(k, len(ops))
-			res := runSet([]func() string{ops[a].f, ops[b].f, ops[a].f}, reps)
-			fmt.Printf("RAN %s || %s\n", ops[a].name, ops[b].name)
-			_ = res
-			bad += 0
-		}
+		prepare([]int{a, b})
+		runSet([]func() string{ops[a].f, ops[b].f, ops[a].f, ops[b].f}, reps)
+		fmt.Printf("RAN %s || %s\n", ops[a].name, ops[b].name)
 	}
 }
 
 func main() {
-	if s := os.Getenv("VERIF_C15_SEQ"); s != "" {
-		// run a sequence of ops in this (fresh) process and print the results
-		setup()
-		var out []string
-		for _, f := range strings.Split(s, ",") {
-			var i int
-			fmt.Sscan(f, &i)
-			out = append(out, ops[i].f())
-		}
-		b, _ := json.Marshal(out)
-		fmt.Println(string(b))
+	if s := os.Getenv("VERIF_C15_EXEC"); s != "" {
+		childExec(s)
 		return
 	}
 	if s := os.Getenv("VERIF_C15_RACE"); s != "" {
 		raceRun(s)
 		return
 	}
-	setup()
-	if p := os.Getenv("VERIF_SOLO_FILE"); p != "" {
-		isMaster := true
-		for _, a := range os.Args[1:] {
-			if a == "-worker" || a == "-replay" {
-				isMaster = false
-			}
-		}
-		if _, err := os.Stat(p); err != nil && isMaster {
-			os.Unsetenv("VERIF_SOLO_FILE")
-			loadSolo()
-			b, _ := json.Marshal(solo)
-			os.WriteFile(p, b, 0o644)
-			os.Setenv("VERIF_SOLO_FILE", p)
+	isMaster := true
+	for _, a := range os.Args[1:] {
+		if a == "-worker" || a == "-replay" {
+			isMaster = false
 		}
 	}
+	_, statErr := os.Stat(fixturesPath())
+	if fixturesPath() == "" || isMaster || statErr != nil {
+		p := fixturesPath()
+		if p == "" {
+			f, _ := os.CreateTemp("", "verif-c15-fixtures-*.json")
+			p = f.Name()
+			f.Close()
+			defer os.Remove(p)
+		}
+		makeFixtures(p)
+	}
+	loadFixtures()
+	buildOps()
 	nops := len(ops)
 	npairs := nops * (nops + 1) / 2
 	ck := &drv.Check{Property: "C15", Level: "model_checking",
-		Rule: "controlled-scheduler exploration: every unordered pair of the 32 operations (incl. an operation with itself) on 2 managed threads and selected triples on 3, all interleavings at instrumented conflicting accesses / lock operations with preemption bound 0,1,2 (conflict-set fix point), " +
-			"each schedule re-run from the initial state; every sequential history of length <= 2 (quick) / <= 3 (thorough) in a fresh process; the same scenario bodies free-running under the race detector in a separate -race build; a built-in canary (racy lazy table, lock-protected check-then-act, correct sync.Once) instrumented by the same instrumenter. " +
-			"oracle: result(call) == result of the same call alone in a fresh process; inputs unchanged; no DATA RACE. non-trivial = a scenario with at least one preemptive schedule, a history of length >= 2, or a race-pass pair",
+		Rule: fmt.Sprintf("controlled-scheduler exploration: every unordered pair of the %d operations (incl. an operation with itself) on 2 managed threads and selected triples on 3, all interleavings at instrumented conflicting accesses / lock operations with preemption bound 0,1,2 (conflict-set fix point), ", nops) +
+			"once in a long-lived process (steady state) and once with EVERY execution in a fresh process whose first library calls are the scenario (first use / lazy initialisation; its bound-0 pass is every 2-operation history in a fresh process); every 3-operation history in a fresh process (thorough); " +
+			"every pair free-running under the race detector, each in its own fresh process of a separate -race build; a built-in canary (racy lazy table, lock-protected check-then-act, correct sync.Once) instrumented by the same instrumenter. " +
+			"oracle: result(call) == result of the same call alone in a fresh process; inputs unchanged; no DATA RACE. non-trivial = a scenario with at least one preemptive schedule, a history, or a race-pass pair",
 		Assumptions: []string{"sequentially consistent interleavings at statement granularity; Go's weaker memory model is covered by requiring the same bodies to be race-free in the free-running -race pass (DRF => SC)",
 			"shared-access instrumentation is syntactic (package-level variables, fields through *dilithium.Dilithium, one-level alias taint); writes through other aliases are still subject to the race pass",
-			"<= 3 threads, <= 2 preemptions; globals inside x/crypto and the runtime are out of scope"},
-		Horizon: 0}
+			"<= 3 threads, <= 2 preemptions; globals inside x/crypto and the runtime are out of scope"}}
 	ck.Domains = append(ck.Domains, &drv.Domain{Name: "canary", Size: 3, Chunk: 1, Desc: "built-in canary: RacyLookup and ToctouLookup MUST be reported by the explorer within preemption bound 2, GoodLookup (sync.Once) must not",
 		Run: func(c *drv.Ctx, lo, hi int64) {
-			loadSolo()
 			for i := lo; i < hi; i++ {
 				c.At(i)
 				f := canaryOps[i].f
 				sc := &e2.Scenario{Name: canaryOps[i].name + " x2", Reset: verifcanary.Reset, Bodies: []func() string{f, f}}
 				verifcanary.Reset()
 				want := f()
-				st, v := e2.Explore(sc, 2, []string{want, want}, 200000, 0)
+				st, v := e2.Explore(sc.Name, e2.InProcess(sc), 2, []string{want, want}, 200000, 0)
 				c.Eval(st.Executions)
 				c.Count("schedules", st.Executions)
 				c.Count("preemptive_choices", st.Preemptive)
@@ -415,9 +525,16 @@ func main() {
 				c.Sample(smp)
 			}
 		}})
-	ck.Domains = append(ck.Domains, &drv.Domain{Name: "pairs", Size: int64(npairs), Chunk: 1, Desc: fmt.Sprintf("all %d unordered pairs of the %d operations on 2 managed threads, preemption bound 0,1,2", npairs, nops),
+	inproc := func(idx []int) e2.Backend {
+		sc := &e2.Scenario{Reset: func() {}}
+		for _, i := range idx {
+			sc.Bodies = append(sc.Bodies, ops[i].f)
+		}
+		prepare(idx)
+		return e2.InProcess(sc)
+	}
+	ck.Domains = append(ck.Domains, &drv.Domain{Name: "pairs", Size: int64(npairs), Chunk: 1, Desc: fmt.Sprintf("steady state: all %d unordered pairs of the %d operations on 2 managed threads in a long-lived process, preemption bound 0,1,2", npairs, nops),
 		Run: func(c *drv.Ctx, lo, hi int64) {
-			loadSolo()
 			for i := lo; i < hi; i++ {
 				c.At(i)
 				if c.FailCount() >= 2 {
@@ -425,11 +542,13 @@ func main() {
 					continue
 				}
 				a, b := pairOf(int(i), nops)
-				sc, exp := scenarioOf([]int{a, b})
-				st := exploreCase(c, i, sc, exp, 2, false, 20000)
+				st := exploreCase(c, i, "interleaving", []int{a, b}, inproc([]int{a, b}), 2)
+				if fixtureDigest() != fx.Solo["fixtures"] {
+					c.Fail(i, "shared-input-buffers-modified", map[string]any{"scenario": ops[a].name + " || " + ops[b].name})
+				}
 				c.Outcome(fmt.Sprintf("outcomes=%d", len(st.Outcomes)))
 				if i == 5 {
-					c.Sample(map[string]any{"scenario": sc.Name, "schedules": st.Executions, "decision_points": st.DecisionPoints, "conflict_vars": st.ConflictVars})
+					c.Sample(map[string]any{"scenario": ops[a].name + " || " + ops[b].name, "schedules": st.Executions, "decision_points": st.DecisionPoints, "conflict_vars": st.ConflictVars})
 				}
 			}
 		}})
@@ -455,86 +574,87 @@ func main() {
 			}
 		}
 	}
-	ck.Domains = append(ck.Domains, &drv.Domain{Name: "triples", Size: int64(len(groups)), Chunk: 1, Desc: "all multisets of 3 operations within each group that touches the same shared object (word list; zetas / shared Dilithium key; XMSS hashing) on 3 managed threads, preemption bound 0,1,2",
+	ck.Domains = append(ck.Domains, &drv.Domain{Name: "triples", Size: int64(len(groups)), Chunk: 1, Desc: "steady state: all multisets of 3 operations within each group that touches the same shared object (word list; zetas / shared Dilithium key; XMSS hashing) on 3 managed threads, preemption bound 0,1,2",
 		Run: func(c *drv.Ctx, lo, hi int64) {
-			loadSolo()
 			for i := lo; i < hi; i++ {
 				c.At(i)
 				if c.FailCount() >= 2 {
 					c.Count("scenarios_skipped_after_failures", 1)
 					continue
 				}
-				sc, exp := scenarioOf(groups[i])
-				st := exploreCase(c, i, sc, exp, 2, false, 20000)
+				st := exploreCase(c, i, "interleaving", groups[i], inproc(groups[i]), 2)
 				c.Outcome(fmt.Sprintf("outcomes=%d", len(st.Outcomes)))
 			}
 		}})
-	hist := func(name, tier string, n int) {
-		size := int64(1)
-		for k := 0; k < n; k++ {
-			size *= int64(nops)
-		}
-		ck.Domains = append(ck.Domains, &drv.Domain{Name: name, Tier: tier, Size: size, Chunk: 4, Desc: fmt.Sprintf("every sequence of %d operations on one thread, each sequence in a fresh process: every result equals the solo result", n),
-			Run: func(c *drv.Ctx, lo, hi int64) {
-				loadSolo()
-				self, _ := os.Executable()
-				for i := lo; i < hi; i++ {
-					c.At(i)
-					var seq []string
-					var idx []int
-					k := i
-					for t := 0; t < n; t++ {
-						idx = append(idx, int(k%int64(nops)))
-						seq = append(seq, fmt.Sprint(k%int64(nops)))
-						k /= int64(nops)
-					}
-					cmd := exec.Command(self)
-					cmd.Env = append(os.Environ(), "VERIF_C15_SEQ="+strings.Join(seq, ","))
-					out, err := cmd.Output()
-					c.Eval(1)
-					c.Nontrivial(1)
-					var res []string
-					if err != nil || json.Unmarshal(bytes.TrimSpace(out), &res) != nil || len(res) != n {
-						c.Fail(i, "history-process-failed", map[string]any{"sequence": seq, "err": fmt.Sprint(err), "output": string(out)})
-						continue
-					}
-					for t := range res {
-						if res[t] != solo[ops[idx[t]].name] {
-							var names []string
-							for _, x := range idx {
-								names = append(names, ops[x].name)
-							}
-							c.Fail(i, "history-dependent-result:"+ops[idx[t]].name, map[string]any{"sequence": names, "position": t, "expected_solo": solo[ops[idx[t]].name], "observed": res[t]})
-							break
-						}
-					}
-					c.Outcome("equal")
-					if i == 30 {
-						c.Sample(map[string]any{"sequence": seq})
+	ck.Domains = append(ck.Domains, &drv.Domain{Name: "fresh-pairs", Size: int64(npairs), Chunk: 1,
+		Desc: "first use: all pairs again with EVERY execution in a fresh process (the two operations are the first library calls of the process), preemption bound 0,1,2; the bound-0 pass runs both serial orders, i.e. every 2-operation history in a fresh process",
+		Run: func(c *drv.Ctx, lo, hi int64) {
+			for i := lo; i < hi; i++ {
+				c.At(i)
+				if c.FailCount() >= 3 {
+					c.Count("scenarios_skipped_after_failures", 1)
+					continue
+				}
+				a, b := pairOf(int(i), nops)
+				bad := false
+				st := exploreCase(c, i, "first-use", []int{a, b}, freshBackend([]int{a, b}, &bad), 2)
+				if bad {
+					c.Fail(i, "shared-input-buffers-modified", map[string]any{"scenario": ops[a].name + " || " + ops[b].name})
+				}
+				c.Outcome(fmt.Sprintf("outcomes=%d", len(st.Outcomes)))
+				if i == 7 {
+					c.Sample(map[string]any{"scenario": ops[a].name + " || " + ops[b].name, "fresh_process_executions": st.Executions, "conflict_vars": st.ConflictVars})
+				}
+			}
+		}})
+	size3 := int64(nops) * int64(nops) * int64(nops)
+	ck.Domains = append(ck.Domains, &drv.Domain{Name: "histories-3", Tier: "t", Size: size3, Chunk: 8, Desc: "every sequence of 3 operations on one thread, each sequence in a fresh process: every result equals the solo result",
+		Run: func(c *drv.Ctx, lo, hi int64) {
+			for i := lo; i < hi; i++ {
+				c.At(i)
+				idx := []int{int(i % int64(nops)), int(i / int64(nops) % int64(nops)), int(i / int64(nops) / int64(nops))}
+				r, errs := spawn(execReq{Ops: idx, Seq: true})
+				c.Eval(1)
+				c.Nontrivial(1)
+				name, exp := namesOf(idx)
+				if r == nil || len(r.Results) != 3 {
+					c.Fail(i, "history-process-failed", map[string]any{"sequence": name, "err": errs})
+					continue
+				}
+				for t := range r.Results {
+					if r.Results[t] != exp[t] {
+						c.Fail(i, "history-dependent-result:"+ops[idx[t]].name, map[string]any{"sequence": strings.ReplaceAll(name, " || ", " ; "), "position": t, "expected_solo": exp[t], "observed": r.Results[t]})
+						break
 					}
 				}
-			}})
-	}
-	hist("histories-2", "", 2)
-	hist("histories-3", "t", 3)
-	// race pass (separate -race build, free-running)
-	const raceShards = 8
-	ck.Domains = append(ck.Domains, &drv.Domain{Name: "race-pass", Size: raceShards + 3, Chunk: 1, Desc: "free-running -race build: all pairs (each as 3 goroutines a,b,a) over 8 processes with GOMAXPROCS 8, plus the canary (racy variant must be reported by the detector, sync.Once variant must not)",
+				c.Outcome("equal")
+			}
+		}})
+	// race pass (separate -race build, free-running), every pair in its own fresh process
+	ck.Domains = append(ck.Domains, &drv.Domain{Name: "race-pass", Size: int64(npairs) + 3, Chunk: 4, Desc: "free-running -race build: every pair as 4 goroutines (a,b,a,b) started together as the first library calls of a fresh process, plus the canary (racy variant must be reported by the detector, sync.Once variant must not)",
 		Run: func(c *drv.Ctx, lo, hi int64) {
 			bin := os.Getenv("VERIF_RACE_BIN")
 			if bin == "" {
 				c.Warn("race binary not available: race pass skipped")
+				c.Cap("race binary not available")
 				return
 			}
 			reps := 2
 			if c.Tier == "thorough" {
-				reps = 6
+				reps = 8
 			}
 			for i := lo; i < hi; i++ {
 				c.At(i)
-				sel := fmt.Sprintf("pairs:%d/%d:%d", i, raceShards, reps)
-				if i >= raceShards {
-					sel = fmt.Sprintf("canary:%d", i-raceShards)
+				if c.FailCount() >= 3 {
+					c.Count("scenarios_skipped_after_failures", 1)
+					continue
+				}
+				var sel string
+				if i < int64(npairs) {
+					a, b := pairOf(int(i), nops)
+					sel = fmt.Sprintf("pair:%d,%d:%d", a, b, reps)
+				} else {
+					sel = fmt.Sprintf("canary:%d", i-int64(npairs))
 				}
 				cmd := exec.Command(bin)
 				cmd.Env = append(os.Environ(), "VERIF_C15_RACE="+sel, "GORACE=halt_on_error=0 exitcode=0 history_size=2")
@@ -542,21 +662,26 @@ func main() {
 				cmd.Stderr = &eb
 				out, err := cmd.Output()
 				ran := int64(strings.Count(string(out), "RAN "))
-				c.Eval(ran + 1)
+				c.Eval(1)
 				c.Nontrivial(ran)
 				c.Count("race_pass_scenarios", ran)
 				races := strings.Count(eb.String(), "WARNING: DATA RACE")
 				c.Count("race_reports", int64(races))
-				if err != nil {
-					c.Fail(i, "race-pass-process-failed", map[string]any{"selection": sel, "err": err.Error(), "stderr": tail(eb.String(), 3000)})
+				if i >= int64(npairs) {
+					k := int(i - int64(npairs))
+					c.Outcome(fmt.Sprintf("canary %d races=%v", k, races > 0))
+					if err != nil || ((k == 0) != (races > 0) && k != 1) {
+						c.Fail(i, fmt.Sprintf("race-canary-%d-reported=%v(infrastructure)", k, races > 0), map[string]any{"err": fmt.Sprint(err), "stderr": tail(eb.String(), 2000)})
+					}
 					continue
 				}
-				if i >= raceShards {
-					k := int(i - raceShards)
-					c.Outcome(fmt.Sprintf("canary %d races=%v", k, races > 0))
-					if (k == 0) != (races > 0) && k != 1 {
-						c.Fail(i, fmt.Sprintf("race-canary-%d-reported=%v(infrastructure)", k, races > 0), map[string]any{"stderr": tail(eb.String(), 2000)})
+				if err != nil {
+					// a Go runtime fatal error (e.g. concurrent map writes) is a finding of the free-running pass
+					key := "race-pass-process-failed"
+					if strings.Contains(eb.String(), "fatal error: concurrent map") {
+						key = "fatal-concurrent-map-access:" + firstLibFrame(eb.String())
 					}
+					c.Fail(i, key, map[string]any{"selection": sel, "err": err.Error(), "stderr": tail(eb.String(), 3000)})
 					continue
 				}
 				c.Outcome(fmt.Sprintf("races=%v", races > 0))
@@ -582,7 +707,7 @@ func main() {
 		cov["traces_validated_against_impl"] = sched
 		cov["instrumented_sites"] = vs.InstrumentedSites
 		cov["instrumented_variables"] = vs.VarNames
-		var l []string
+		l := []string{}
 		for k := range cv {
 			l = append(l, k)
 		}
@@ -612,7 +737,11 @@ func firstReport(s string) string {
 }
 
 func firstLibFrame(s string) string {
-	for _, l := range strings.Split(firstReport(s), "\n") {
+	src := firstReport(s)
+	if src == "" {
+		src = s
+	}
+	for _, l := range strings.Split(src, "\n") {
 		l = strings.TrimSpace(l)
 		if strings.HasPrefix(l, "github.com/theQRL/go-qrllib/") && !strings.Contains(l, "verifsched") {
 			l = strings.TrimPrefix(l, "github.com/theQRL/go-qrllib/")
